@@ -374,17 +374,37 @@ example : StrClass.surrounded ≠ .normalized ∧ StrClass.surrounded.setValue "
 value, the set `#channel` values, per `:network` its value when set and its set channel values;
 `build` adds the unset network nodes that exist only because one of their channels is set) is
 written by `registry.close`, read by `open_registry` in a fresh process and rebuilt by
-`registerChannelValue` — node for node, with the same values and `_wasSet` flags, under `Storable`:
+`registerChannelValue` (or, for a tree with network values only, by `registerNetworkValue`) — node for node, with the same values and `_wasSet` flags, under `Storable`:
 the class reads back what it prints for every recorded value (`RT`, discharged below for String,
 Boolean, Integer), names are reader-safe and case-insensitively distinct, channel names are valid,
 no network name ends in a backslash, children are in `_added.sort()` order.  The new cache holds
 exactly the saved texts. -/
 theorem save_load_roundtrip (pr : Char → Bool) (c : ClassId) (dflt : Val) (K : Kind) (B : Str)
-    (t : TreeSpec Val) (cache0 : Cache) (hK : K.chanV = true) (hc : c ≠ .str .normalized)
+    (t : TreeSpec Val) (cache0 : Cache)
+    (hK : K.chanV = true ∨ (K.netV = true ∧ t.chans = [] ∧ ∀ ns ∈ t.nets, ns.chans = []))
+    (hc : c ≠ .str .normalized)
     (h : Storable pr c dflt B t) :
     saveLoad pr c dflt K B ⟨t.build, cache0⟩ =
       .up ⟨t.build, (t.entries B).map fun kv => (kv.1, c.show pr kv.2)⟩ :=
   saveLoad_normal_aux header_table_ok pr c dflt K B t cache0 hK hc h
+
+/-- the same for a global variable (`registerGlobalValue`: no children) -/
+theorem save_load_global (pr : Char → Bool) (c : ClassId) (dflt v : Val) (B : Str) (cache0 : Cache)
+    (hc : c ≠ .str .normalized) (hn : GoodName B) (hrt : RT (c.cls pr dflt) v) :
+    saveLoad pr c dflt ⟨false, false⟩ B ⟨⟨v, true, [], []⟩, cache0⟩ = .up ⟨⟨v, true, [], []⟩, [(B, c.show pr v)]⟩ := by
+  have hfile := file_always_loads [⟨none, none, B, c.show pr v⟩]
+    (by intro x hx; simp at hx; subst hx; exact ⟨hn, by intro w hw; simp at hw⟩)
+  have hdump : (⟨v, true, [], []⟩ : Var Val).dump B = [(B, v)] := by simp [Var.dump, sortKeys]
+  unfold saveLoad
+  simp only [hdump, saveText, List.map_cons, List.map_nil, ClassId.serializeAt, if_neg hc]
+  have : fileText [⟨[], B, c.serialize pr v⟩] = closeText ([⟨none, none, B, c.show pr v⟩].map VSpec.spec) := by
+    simp [closeText, renderSpecs, VSpec.spec, ClassId.serialize]
+  rw [this, hfile]
+  simp only [List.map_cons, List.map_nil, cacheOf, List.foldl_cons, List.foldl_nil, cacheSet, boot, cacheGet, if_true]
+  have := hrt dflt
+  simp only [ClassId.cls] at this ⊢
+  rw [this]
+  simp
 
 /-- `RT` for the String class: every string -/
 theorem rt_string (pr : Char → Bool) (dflt : Val) (x : Str) : RT (ClassId.cls pr (.str .plain) dflt) (.s x) := by
